@@ -79,6 +79,12 @@ def suite_smiles(tier: str, seed: int, mult: int) -> SuiteResult:
                 smiles, bad = gen_smiles(rng, n, 0.3)
                 if not bad:
                     smiles[5], bad = INVALID[0], [5]
+            if k == 1:   # ... and one single-file run that skips entries which parse but fail sanitisation
+                n, skip, mode = 12, True, "single"
+                smiles, bad = gen_smiles(rng, n, 0.0)
+                for pos, bad_smi in zip((2, 7), ["C(C)(C)(C)(C)(C)C", "CN(C)(C)(C)C"]):   # parse, but fail sanitisation (valence)
+                    smiles[pos] = bad_smi
+                bad = sorted({2, 7} | set(bad))
             parts = rng.choice([2, 3, 4, 7, 9, 9, 11]) if mode == "parts" else None
             if parts == 9 and not (k == 0):
                 # a count whose remainder exceeds the quotient (17 = 9*1 + 8, 26, 35, 44): a floor instead of a ceiling
